@@ -963,7 +963,14 @@ class C20(Property):
             "every encode call the learner makes is judged against the expansion of the REQUESTED terms (x-less rewriting when the first "
             "accepted request has no context), the vectors must belong to the request's (context, action) pairs, pmfs and final theta/A^-1 "
             "are compared with the Lean Sherman-Morrison model, and 60% of the histories with >= 2 string terms are run a second time with "
-            "the terms in another order (same pmfs; permuted model run)")
+            "the terms in another order (same pmfs; permuted model run); phase 5: every call with arbitrary doubles is also sent to the encoder "
+            "computed with the rounding multiplication fmul53 (driver field model53): the real result must be within the proved bound of it, equal bit "
+            "for bit when every term has degree <= 2 (one IEEE product per entry), and bit-exactness is tagged otherwise; every prediction of a learner "
+            "history is recomputed by the Lean interpreter runPredict from the `_pmf` program read off the CURRENT source (sqrt / round(.,5) sent as a table "
+            "of the arguments that occur) and compared with the model's pmf and the real learner's; every sparse call evaluates the whole-call equal-length "
+            "condition (equalLenOK) in Lean and on the monitor's own names and checks its consequence (all monomials kept); round h: a deterministic size "
+            "family in the corpus - dense namespaces of 1, 2, 63, 64, 65, 100, 257 distinct values on the mapping path (next to a string scalar, next to a "
+            "sparse namespace, a string inside the vector) and on the vector path, degree 1, the cross `xa` and degree 2 (mapping path up to 65, vector path up to 100)")
     trusted_base = [
         "products are compared exactly (ints, or dyadic floats small enough that every float product is exact); cases with arbitrary doubles "
         "are compared at the relative tolerance (1+2^-53)^(d-1)-1 of theorem encode_float_model (standard model: no under/overflow, "
@@ -984,6 +991,12 @@ class C20(Property):
         "learner histories: numpy is replaced by an exact stand-in (props/c20_numpy.py: Fractions on lists; zeros, identity, array, @, einsum "
         "'ij,ij->j', outer, amax, where, sqrt via math.sqrt) - the REAL linucb.py / lints.py code runs on it; LinTS only with v=0 (no "
         "multivariate_normal); sqrt is the only inexact operation and is replayed identically on the model's exact bounds",
+        "phase 5: FloatMul's clause x*1 = x is now restricted to representable x (FloatMulOn Rep53) and PROVED for fmul53 (floatMulOn_fmul53), so "
+        "encode_float_fmul53 has no hypothesis on the multiplication left; still trusted: CPython's double `*` is fl53 away from under/overflow",
+        "phase 5: the `_pmf` bodies of linucb.py / lints.py (branch v == 0) are read off the source by an AST reader (props/c20_learner.py "
+        "extract_pmf_prog) into Generated/C20LinAlg.lean; np.sqrt / .round(5) are parameters of the model (a table of CPython's values on the arguments "
+        "that occur is sent to the driver); LinTS with v != 0 draws from numpy's Generator (PCG64 stream, ziggurat normals, Cholesky factor), which "
+        "cannot be reproduced without numpy - a stand-in would fix other draws, so that branch is not run and not modelled",
         "the callers are run with a recording subclass substituted for the module-level name InteractionsEncoder and, where numpy is "
         "not installed, a stub numpy module (only the encoder calls made before the first numpy use are observed)",
     ]
@@ -1542,9 +1555,42 @@ class C20(Property):
             {"terms": ["xx", "xa"], "ns": [["x", D({"s": "red", "sc": "cat"}, {"n": [3, 1]})], ["a", D({"n": [5, 1]}, {"s": "s", "sc": "sub"})]]},
             {"terms": ["xa"], "ns": [["x", {"k": "sparse", "wrap": "dict", "v": [[{"i": 1}, {"s": "red", "sc": "cat"}], [{"s": "k"}, {"n": [3, 1]}]]}], ["a", {"k": "scalar", "v": {"s": "t", "sc": "sub"}}]]},
         ]
+        # goal-3 witnesses (phase 5): the non-vacuity example of `sparse_call_faithful_of_equal_length` and the regrouping witness of
+        # `sparse_call_no_collision_counterexample` (`xxa`,`xax` list the same monomials twice); the `c`+`onst` witness is above
+        SP = lambda *kv: {"k": "sparse", "v": [[{"s": k}, {"n": [v, 1]}] for k, v in kv], "wrap": "dict"}
+        cs += [{"terms": ["x", "xa", "xxa"], "ns": [["x", SP(("p", 2), ("q", 3))], ["a", SP(("k", 5))]]},
+               {"terms": ["xxa", "xax"], "ns": [["x", SP(("p", 2))], ["a", SP(("k", 5))]]}]
+        cs += self.size_family()
         from props import c20_learner
         cs += c20_learner.corpus()
         return cs
+
+    SIZES = (1, 2, 63, 64, 65, 100, 257)
+
+    def size_family(self):
+        """round h: DETERMINISTIC sizes of a dense namespace - 1, 2, 63, 64, 65, 100, 257 elements - on the sparse/string path
+        (next to a string scalar, a sparse namespace, or with a string inside the vector itself) and on the dense path, degree 1
+        and degree 2 (degree 2 on the mapping path up to 65 elements: the model's insertion-ordered dict is quadratic).  Every
+        value is distinct, so a lost, truncated or misplaced feature changes the result."""
+        out = []
+        for n in self.SIZES:
+            xs = {"k": "dense", "v": [{"n": [i + 2, 1]} for i in range(n)], "wrap": "list"}
+            xt = {"k": "dense", "v": [{"n": [i + 2, 1]} for i in range(n)], "wrap": "tuple"}
+            xz = {"k": "dense", "v": [{"n": [i + 2, 1]} for i in range(n - 1)] + [{"s": "z"}], "wrap": "list"}
+            sb = {"k": "scalar", "v": {"s": "b"}}
+            sk = {"k": "sparse", "v": [[{"s": "k"}, {"n": [5, 1]}]], "wrap": "dict"}
+            a2 = {"k": "dense", "v": [{"n": [3, 1]}, {"n": [5, 1]}], "wrap": "list"}
+            out += [
+                {"terms": ["x", "xa"], "ns": [["x", xs], ["a", sb]]},           # mapping path: string scalar next to the vector
+                {"terms": ["x", "xa"], "ns": [["x", xt], ["a", sk]]},           # mapping path: sparse namespace next to the vector
+                {"terms": ["x"], "ns": [["x", xz]]},                            # mapping path: a string inside the vector itself
+                {"terms": ["x", "xa"], "ns": [["x", xs], ["a", a2]]},           # vector path, degree 1 and the cross
+            ]
+            if n <= 100:
+                out.append({"terms": ["xx"], "ns": [["x", xt]]})                # vector path, degree 2: n(n+1)/2 entries
+            if n <= 65:
+                out.append({"terms": ["xx"], "ns": [["x", xs], ["a", sb]]})     # mapping path, degree 2
+        return out
 
     # ---- evaluation
     def evaluate(self, case, driver):
@@ -1852,9 +1898,36 @@ class C20(Property):
         nontrivial = bool(o.terms) and o.in_quantifier and size >= 3
         model = None
         if driver is not None:
-            ans = driver.ask(to_driver(case))
+            req = to_driver(case)
+            if o.tol:
+                req["f53"] = True
+            ans = driver.ask(req)
             model = ans["model"]
             m = from_model(model)
+            if "model53" in ans:
+                # phase 5, `encode_float_fmul53`: on double inputs the implementation IS the encoder computed with the
+                # IEEE rounding multiplication (bit for bit, no tolerance), and that encoder lies within the proved
+                # (1+2^-53)^(d-1)-1 of the exact one
+                m53 = from_model(ans["model53"])
+                tags.append("f53:" + ("dense" if "dense" in m53 else "sparse" if "sparse" in m53 else "err"))
+                if ("dense" in impl or "sparse" in impl) and "float" in impl.get("ty", ["float"]):
+                    rounded = (m53 != m)
+                    tags.append("f53:rounds" if rounded else "f53:no-rounding")
+                    if self.same(impl, m53, 0):
+                        tags.append("f53:bit-exact")
+                    elif ans.get("maxdeg", 9) <= 2:
+                        # degree <= 2: every entry is ONE double product, so there is no freedom of association - any code
+                        # that multiplies with IEEE `*` (in either order) returns exactly fl53(a*b)
+                        fails.append(F("A", "%s: implementation %s differs from the correctly rounded single products %s (terms of degree <= 2: "
+                                       "one IEEE multiplication per entry, no association involved)"
+                                       % (show_call(case), fmt_out(impl), json.dumps(ans["model53"])[:260]), "A:encode-fmul53:single-product"))
+                    else:
+                        # degree >= 3: another association of the same product is a harmless rewrite (still inside the proved
+                        # bound, which the ordinary comparison checks) - recorded, not reported
+                        tags.append("f53:within-bound-not-bit-exact")
+                if not self.same(m53, m, o.tol):
+                    fails.append(F("C", "encodeG fmul53 %s is not within (1+2^-53)^(d-1)-1 of the exact encoder %s (encode_float_fmul53)"
+                                   % (json.dumps(ans["model53"])[:200], json.dumps(model)[:200]), "C:fmul53-bound"))
             if not self.same(impl, m, o.tol):
                 # the three recorded defects are switchable in the model: an implementation that equals the
                 # model of the unchanged tree (or of a partly repaired one) corresponds; (B) reports the defect
@@ -1895,6 +1968,26 @@ class C20(Property):
                     elif "sparse" in impl and (len(impl["sparse"]) == py_n) != (not py_coll):
                         fails.append(F("A", "%s returned %d keys for %d named monomials, collides = %r (sparse_faithful_iff: all monomials are kept iff no two share a name)"
                                        % (show_call(case), len(impl["sparse"]), py_n, py_coll), "A:sparse-faithful-iff"))
+                    if "eqlen" in ans:
+                        # phase 5, `sparse_call_faithful_of_equal_length`: the checkable whole-call condition (all feature names of the
+                        # named namespaces have one length L >= 1, no two terms equal up to regrouping, constant absent or L does not
+                        # divide 5) evaluated here on the monitor's own names, by the Lean model, and its consequence on the real result
+                        sterms = [tt for tt in case["terms"] if isinstance(tt, str)]
+                        lens = [len(nm) for tt in sterms for c in tt for nm, _ in o.feats.get(c, [])]
+                        L = lens[0] if lens else 0
+                        canon = ["".join(c * p_ for c, p_ in factors(tt)) for tt in d]
+                        py_ok = bool(L >= 1 and all(x == L for x in lens) and len(set(canon)) == len(canon) and (not o.const or 5 % L != 0))
+                        if ans["eqlen"] != py_ok or (lens and ans["callL"] != L):
+                            fails.append(F("C", "Lean equalLenOK/callL = %r/%d, evaluated on the monitor's feature names: %r/%d" % (ans["eqlen"], ans["callL"], py_ok, L), "C:equal-length-condition"))
+                        elif py_ok:
+                            tags.append("sparse:equal-length-ok" + (":multi-namespace" if any(len(factors(tt)) > 1 for tt in d) else ""))
+                            if ans["collides"] or py_coll:
+                                fails.append(F("C", "the equal-length condition holds (L = %d) but two monomials share a name (sparse_call_no_collision)" % L, "C:equal-length-collides"))
+                            elif "sparse" in impl and len(impl["sparse"]) != py_n:
+                                fails.append(F("A", "%s: all feature names have length %d and no two terms coincide up to regrouping, so all %d named monomials must be kept "
+                                               "(sparse_call_faithful_of_equal_length); the result has %d keys" % (show_call(case), L, py_n, len(impl["sparse"])), "A:equal-length-faithful"))
+                        else:
+                            tags.append("sparse:equal-length-no")
             elif m != {"err": "IndexError"}:
                 fails.append(F("C", "a term without namespaces should give IndexError in the model", "C:empty-term"))
         return {"fails": fails, "nontrivial": nontrivial, "tags": tags, "impl": jsonable(impl) if ("dense" in impl or "sparse" in impl) else impl, "model": model}
